@@ -475,6 +475,8 @@ class Run:
                 "build", "proof obligation no longer checks: %s at %s" % (e.what, where),
                 {"error": (e.log or "")[-4000:]}, kind="theorem-broken", theorem=where, no_input=True))
             return False
+        if self.thorough and os.environ.get("VERIF_NO_COQCHK") != "1":
+            self.coqchk()
         n = len(info["theorems"]) + extra_obligations
         self.cov["obligations"] = n
         self.cov["discharged"] = n
@@ -487,6 +489,25 @@ class Run:
         self.cov["trusted_base"] = tb
         self.cov["axioms"] = ax["axioms"]
         return True
+
+    def coqchk(self):
+        """thorough tier: re-check the property's compiled files (and everything they depend on) with the
+        independent checker and record the axioms it reports"""
+        mods = ["NpTdms.Props.%s" % self.pid] + sorted(
+            "NpTdms.Props." + p.stem for p in (THEORIES / "Props").glob("%s_*.v" % self.pid))
+        try:
+            rc, out = sh(["coqchk", "-o", "-silent", "-Q", str(THEORIES), "NpTdms"] + mods, 2400, cwd=str(COQ))
+        except subprocess.TimeoutExpired:
+            self.cov["coqchk"] = {"status": "timeout"}
+            return
+        m = re.search(r"\* Axioms:(.*?)\n\s*\n\* Constants/Inductives relying on type-in-type:(.*?)\n\s*\n", out, flags=re.S)
+        axioms = [a.strip() for a in (m.group(1).split("\n") if m else []) if a.strip() and a.strip() != "<none>"]
+        self.cov["coqchk"] = {"status": "ok" if rc == 0 else "failed", "modules": mods, "axioms": axioms,
+                              "type_in_type": (m.group(2).strip() if m else "?")}
+        if rc != 0:
+            self.violations.append(Violation(
+                "coqchk", "coqchk rejects the compiled development for %s" % self.pid, {"log": out[-3000:]},
+                kind="theorem-broken", theorem="coqchk", no_input=True))
 
     # -- bookkeeping -------------------------------------------------------
     def count(self, key, n=1):
